@@ -29,15 +29,15 @@ variable {V H : Type}
 /-! ### laws of the value primitives the rules rely on -/
 
 /-- What the rules assume about values. Each law is a fact about value.go that the C04 model
-    proves for the integer types (`sub_untyped`, `incdec_type`: see `num_laws` below) or that
-    holds because `Get`/`Set` read only the numeric payload of an integer key (`get_int`,
-    `set_int`; checked by the implementation-level differential). -/
+    proves for the integer types (`sub_untyped`, `incdec_type`: see `num_laws` below). (Two further
+    laws - indexing with the untyped constant k or with Int(k) is the same - were needed while
+    FASTGETINT / FASTSETINT built their key with Int(k); they were false for constants outside the
+    int32 range, a genuine defect repaired in /repo: the handlers now index with the untyped
+    constant itself, and the rules are sound without any assumption about Get / Set.) -/
 structure PrimLaws (P : Prims V H) : Prop where
-  /-- `x - k` is `x + (-k)` for an untyped constant k (PUSH k; SUB → INCDEC −k) -/
-  sub_untyped : ∀ a k, P.sub a (P.untyped k) = P.add a (P.untyped (-k))
-  /-- indexing with the untyped constant k or with Int(k) is the same (FASTGETINT/FASTSETINT) -/
-  get_int : ∀ r k h, P.get r (P.untyped k) h = P.get r (P.intV k) h
-  set_int : ∀ r k v h, P.set r (P.untyped k) v h = P.set r (P.intV k) v h
+  /-- `x - k` is `x + (-k)` for an untyped constant k ≠ 0 (PUSH k; SUB → INCDEC −k; the rule's guard
+      excludes k = 0, where a float64 -0.0 would give -0.0 on one side and +0.0 on the other) -/
+  sub_untyped : ∀ a k, k ≠ 0 → P.sub a (P.untyped k) = P.add a (P.untyped (-k))
   /-- `x + k` has x's type, so storing it back into x's slot converts nothing (LOCALINCDEC) -/
   incdec_type : ∀ x k r, P.add x (P.untyped k) = some r → P.assignTo r x = r
 
@@ -163,7 +163,7 @@ theorem sound_fastgetint (L : PrimLaws P) :
   obtain ⟨i, j, k, X, rfl, hi, hj, hk, -⟩ := window3 rfl h
   simp only [List.length_cons, List.length_nil, List.take_succ_cons, List.take_zero, run, build, srcVal, Instr.fld]
   simp [exec1, hi, hj, hk]
-  cases h1 : getLocal σ i.a <;> simp [L.get_int]
+  cases h1 : getLocal σ i.a <;> simp
 
 theorem sound_fastsetint (L : PrimLaws P) :
     Sound P call { lhs := ["LOCALGET", "PUSH", "SET"], guards := [], rhs := "FASTSETINT",
@@ -172,7 +172,7 @@ theorem sound_fastsetint (L : PrimLaws P) :
   obtain ⟨i, j, k, X, rfl, hi, hj, hk, -⟩ := window3 rfl h
   simp only [List.length_cons, List.length_nil, List.take_succ_cons, List.take_zero, run, build, srcVal, Instr.fld]
   simp [exec1, hi, hj, hk]
-  cases h1 : getLocal σ i.a <;> cases h2 : σ.ops <;> simp [h2, L.set_int]
+  cases h1 : getLocal σ i.a <;> cases h2 : σ.ops <;> simp [h2]
 
 theorem sound_fastcallattr :
     Sound P call { lhs := ["LOCALGET", "GETATTR", "CALL"], guards := [], rhs := "FASTCALLATTR",
@@ -222,13 +222,14 @@ theorem sound_push_add :
   cases h2 : σ.ops <;> simp [h2]
 
 theorem sound_push_sub (L : PrimLaws P) :
-    Sound P call { lhs := ["PUSH", "SUB"], guards := [], rhs := "INCDEC",
+    Sound P call { lhs := ["PUSH", "SUB"], guards := [.nec 0 .A 0], rhs := "INCDEC",
                    a := .neg 0 .A, b := .none, c := .none, pos := 1 } := by
   intro w σ h _
-  obtain ⟨i, j, X, rfl, hi, hj, -⟩ := window2 rfl h
+  obtain ⟨i, j, X, rfl, hi, hj, hg⟩ := window2 rfl h
+  simp [guardOk, Instr.fld] at hg
   simp only [List.length_cons, List.length_nil, List.take_succ_cons, List.take_zero, run, build, srcVal, Instr.fld]
   simp [exec1, hi, hj, arith]
-  cases h2 : σ.ops <;> simp [h2, L.sub_untyped]
+  cases h2 : σ.ops <;> simp [h2, L.sub_untyped _ _ hg]
 
 theorem sound_jump0 :
     Sound P call { lhs := ["JUMP"], guards := [.eqc 0 .A 0], rhs := "PASS",
@@ -620,14 +621,14 @@ namespace Goat.Props.C02.Demo
 open Goat.Peephole Goat.VMCore Goat.CF Goat.Props.C02
 
 def ip : Prims Int Unit :=
-  { untyped := id, intV := id, global := id,
+  { untyped := id, global := id,
     add := fun a b => some (a + b), sub := fun a b => some (a - b), mul := fun a b => some (a * b),
     div := fun a b => if b = 0 then none else some (a / b),
     assignTo := fun v _ => v, get := fun _ _ _ => none, set := fun _ _ _ _ => none,
     getattr := fun _ _ _ => none, setattr := fun _ _ _ _ => none }
 
 example : PrimLaws ip :=
-  ⟨by intro a k; simp [ip]; omega, by intros; rfl, by intros; rfl, by intros; rfl⟩
+  ⟨by intro a k _; simp [ip]; omega, by intros; rfl⟩
 
 def dl : Leaves :=
   { act := fun n => if n = 1 then [⟨"LOCALGET", 0, 0, 0, 0⟩, ⟨"LOCALGET", 1, 0, 0, 0⟩, ⟨"ADD", 0, 0, 0, 0⟩, ⟨"LOCALSET", 0, 0, 0, 0⟩]
